@@ -1,6 +1,8 @@
 import Blue.Model.Wire
 import Blue.Model.Proto
 import Blue.Model.ProtoMsg
+import Blue.Model.ProtoSz
+import Blue.Model.Varint
 import Blue.Driver.Util
 /-! Driver verbs for the wire level (`wire …`) and the schema interpreter (`proto …`), property C15.
 
@@ -174,8 +176,9 @@ def handleProto : List String → String
     match parseMsg st, parseVal vt with
     | some (m, []), some (v, []) =>
       let bs := packMsg fuel m v
+      -- the size is the model's `pack_sz` (`packSzMsg`: the sum the code adds up), NOT `bs.length`
       if flatPackAgrees m v bs == some false then "flat-model-mismatch"
-      else hexOfBytes bs ++ " " ++ toString bs.length
+      else hexOfBytes bs ++ " " ++ toString (packSzMsg fuel m v)
     | _, _ => "bad-op"
   | "unpack" :: rest =>
     let (st, ht) := splitBar rest
@@ -199,10 +202,41 @@ def handleProto : List String → String
 
 def showWt (wt : WT) : String := toString wt.bits
 
+def showRes (n : Nat) : Blue.Varint.Res → String
+  | .ok v rest => "ok " ++ toString v ++ " " ++ toString (n - rest.length)
+  | .err b => "err varint-overflow bytes=" ++ toString b
+  | .panic => "panic"
+
+/-- the three decoders of the model side by side (the theorems of `Blue/Proofs/Varint.lean` say
+    they agree; the driver also executes that): `decVarint`, `unpack_slow` on the whole buffer,
+    the unrolled dispatch when it is in range -/
+def pathsAgree (bs : List Nat) : Bool :=
+  let d := decVarint bs
+  let slow := Blue.Varint.unpackSlow (10, 10) bs
+  let okSlow := slow == Blue.Varint.ofDec (min bs.length 10) d
+  let okFast := bs.length < 10 || Blue.Varint.dispatch Blue.Varint.arms10 bs == Blue.Varint.ofDec bs.length d
+  okSlow && okFast
+
 def handleWire : List String → String
+  | ["unpack", h] =>
+    -- `<v64 as Unpackable>::unpack` as the code has it: slow decoder below ten bytes, unrolled
+    -- dispatch from ten bytes on; the error carries its `bytes` field
+    match parseHex h with
+    | none => "bad-op"
+    | some bs => if pathsAgree bs then showRes bs.length (Blue.Varint.unpack bs) else "model-paths-disagree"
+  | ["ssz", s, v] =>
+    match scalarOfName s, parseVal [v] with
+    | some s, some (v, []) => hexOfBytes (encScalar s v) ++ " " ++ toString (szScalar s v)
+    | _, _ => "bad-op"
   | ["enc", n] =>
     match optNat n with
-    | some n => if n < U64 then hexOfBytes (encVarint n) ++ " " ++ toString (varintSz n) else "bad-op"
+    | some n =>
+      -- `v64::pack` as written (`Blue.Varint.pack`) into a zeroed buffer of `pack_sz` bytes
+      if n < U64 then
+        match Blue.Varint.pack n (List.replicate (varintSz n) 0) with
+        | none => "panic"
+        | some bs => if bs == encVarint n then hexOfBytes bs ++ " " ++ toString (varintSz n) else "model-pack-disagrees"
+      else "bad-op"
     | none => "bad-op"
   | ["dec", h] =>
     match parseHex h with
@@ -225,7 +259,7 @@ def handleWire : List String → String
       if !validFieldNumber n then "err invalid-field-number"
       else match WT.ofBits w with
         | none => "err unhandled-wire-type"
-        | some wt => hexOfBytes (encTag ⟨n, wt⟩)
+        | some wt => hexOfBytes (encTag ⟨n, wt⟩) ++ " " ++ toString (szTag ⟨n, wt⟩)
     | _, _ => "bad-op"
   | ["tagdec", h] =>
     match parseHex h with
